@@ -780,6 +780,24 @@ func tlbStream(t reflect.Type, stream string, seed int64, n int) [][]h.Row {
 			}
 			out = append(out, damage(s, 9, g.Rng.Intn(len(s)), g.Rng.Intn(8), g.Rng))
 		}
+	case "chain":
+		// deep chains: every cell has one reference to the next; the cells repeat the root of a valid encoding (with
+		// its data, so that decoders follow the reference) or carry random / full data
+		for i := 0; i < n; i++ {
+			depth := 100 + g.Rng.Intn(1400)
+			var s []h.Row
+			if g.Rng.Intn(3) != 0 {
+				s = vg.validSeed(t, 4)
+			}
+			tab := bombTable(g.Rng, s, 1, depth)
+			if s == nil && g.Rng.Intn(2) == 0 {
+				for k := range tab {
+					tab[k].BitLen, tab[k].Data = 1016, make([]byte, 127)
+					g.Rng.Read(tab[k].Data)
+				}
+			}
+			out = append(out, tab)
+		}
 	case "bomb":
 		for i := 0; i < n; i++ {
 			fan := 2 + g.Rng.Intn(3)
@@ -1075,6 +1093,7 @@ func (gc *genCtx) genTLB() {
 			emit("every", nEvery)
 		}
 		emit("bomb", nBomb)
+		emit("chain", nBomb)
 		emit("exoticbad", g.Scale(4, 60)/scale)
 		g.Counters["tlb_inputs"] += nRand + nMut + nBomb
 		if has {
